@@ -6,6 +6,7 @@ A_PROPS = [
 ]
 
 ENGINE = {p: "gfisim" for p in A_PROPS}
+ENGINE["C04"] = ["gfisim", "gfisim", "distsim"]
 ENGINE["C17"] = "chmsim"
 ENGINE["C19"] = "chmsim"
 ENGINE["C31"] = "ttsim"
@@ -13,6 +14,7 @@ ENGINE["C31"] = "ttsim"
 RULES = {
     "gfisim": "sessions are generated from the seed by sim/script.py (program AST from sim/gen.py, 3-12 GFI steps, per-replica perturbation schedule) and executed on the real GenJAX; a session is non-trivial if its program has >=1 combinator, it has >=1 edit or constrained create, and >=1 perturbation actually fired; distinct = distinct (program kind sequence, operation-kind sequence, fired perturbation multiset) signatures among non-trivial sessions",
     "chmsim": "choice-map / mask construction histories generated from the seed by sim/chmsim.py over the alphabet {a,b,c} with <=2 index levels; non-trivial = >=3 construction operations and >=1 traced replica; distinct = distinct operation-kind sequences",
+    "distsim": "C04 supplement sessions (sim/distsim.py): a generated finite-discrete or continuous program, the key-reuse monitor on simulate/propose, and N samples in one jit(vmap(simulate)) compared with the reference's exact table (G-test) or conditional CDFs (KS / grid chi-square), p<1e-9",
     "ttsim": "debugger navigation histories generated from the seed by sim/ttsim.py; non-trivial = >=2 record points and >=2 navigation operations; distinct = distinct (program shape, operation sequence) pairs",
 }
 
